@@ -267,6 +267,17 @@ def _gen_gen(rng, fault_rate, big=False):
         else:
             ws = [Fraction(rng.randint(1, 40), rng.choice([1, 2, 3, 5, 7, 12])) for _ in range(k)]
         op["ws"] = [M.enc(w) for w in ws]
+        if rng.random() < 0.35 and k >= 2:
+            # a weight vector may mix number classes (first an int, later fractions ...): the spacing must still be w
+            op["wcls"] = [rng.choice(["int", "frac", "frac", "float"]) for _ in range(k)]
+            ws2 = []
+            for w, c in zip(ws, op["wcls"]):
+                if c == "int":
+                    w = Fraction(max(1, round(w)))
+                elif c == "float":
+                    w = Fraction(max(1, round(w * 64)), 64)
+                ws2.append(w)
+            op["ws"] = [M.enc(w) for w in ws2]
     if rng.random() < fault_rate:
         op["invalid"] = rng.choice(["p-neg", "n-le-p", "p-float", "n-str", "p-none"])
     return op
@@ -406,7 +417,7 @@ def gen_plan(prop, seed, tier):
             op["dst"] = dst
         else:  # query
             op = {"op": "query", "t": t, "what": rng.choice(["span", "mult", "valid"]),
-                  "seq": rng.random() < 0.4, "nodes": _gen_nodes(rng, 4)}
+                  "seq": rng.random() < 0.4, "nodes": _gen_nodes(rng, 5), "form": rng.choice(["list", "tuple", "ndarray", "ndarray"])}
             if faulty:
                 r = rng.random()
                 if r < 0.6:
@@ -814,7 +825,10 @@ class KVEngine:
             elif g == "uniform":
                 kv = self.Gen.uniform(P, N, pycls)
             elif g == "weight":
-                ws = [self.mk(M.dec(w), cls) for w in op["ws"]]
+                if "wcls" in op:
+                    ws = [self.mk(M.dec(w), c) for w, c in zip(op["ws"], op["wcls"])]
+                else:
+                    ws = [self.mk(M.dec(w), cls) for w in op["ws"]]
                 kv = self.Gen.weight(P, ws)
             else:
                 r = op["rng"]
@@ -876,7 +890,7 @@ class KVEngine:
             ctx.fail("generator-postcondition", g + "-interior-not-simple", "interior multiplicities %r" % ([m for _, m in mults],))
         ks = [k for k, _ in mults]
         pycls = {"int": int, "float": float, "frac": Fraction}[cls]
-        if cls == "frac" and not all(isinstance(x, Fraction) for x in raw):
+        if cls == "frac" and "wcls" not in op and not all(isinstance(x, Fraction) for x in raw):
             ctx.fail("generator-postcondition", g + "-type", "cls=Fraction but knot types %r" % sorted(set(type(x).__name__ for x in raw)))
         # (the statement fixes the knot type only for cls=Fraction; int/float results are judged by value)
         if g in ("bezier", "uniform", "random"):
@@ -899,7 +913,7 @@ class KVEngine:
                     ctx.fail("generator-postcondition", g + "-spacing", "knots %r" % [float(x) for x in ks])
         if g == "weight":
             exp = [M.Fr(w) for w in ws]
-            if cls == "float":
+            if cls == "float" or any(isinstance(w, float) for w in ws):
                 bad = any(abs(float(a - b)) > 1e-12 * max(1.0, abs(float(b))) for a, b in zip(gaps, exp)) or len(gaps) != len(exp)
             else:
                 bad = gaps != exp
@@ -1442,6 +1456,14 @@ class KVEngine:
         bad = "bad" in tags
         outside = (not bad) and any(M.Fr(v) < L[0] or M.Fr(v) > L[-1] for v in vals)
         arg = list(vals) if (op["seq"] or len(vals) > 1) else vals[0]
+        if isinstance(arg, list) and not bad:
+            form = op.get("form", "list")
+            if form == "tuple":
+                arg = tuple(arg)
+            elif form == "ndarray":
+                # a 1-D numpy array of nodes (object dtype keeps exact rationals exact)
+                isf_all = all(isinstance(v, float) for v in vals)
+                arg = self.np.array(vals, dtype="float64" if isf_all else object)
         what = op["what"]
         pre = self.snapshot(kv)
         try:
@@ -1465,7 +1487,7 @@ class KVEngine:
                     ctx.fail("query-mismatch", "outside-accepted" if res == "ok" else "outside-wrong-exception",
                              "%s(outside node) gave %r" % (what, r))
             else:
-                if isinstance(arg, list):
+                if isinstance(arg, (list, tuple, self.np.ndarray)):
                     exp = {"span": tuple(M.kv_span(L, M.Fr(v)) for v in vals),
                            "mult": tuple(M.kv_mult(L, M.Fr(v)) for v in vals), "valid": True}[what]
                     got = tuple(r) if (res == "ok" and what != "valid") else r
